@@ -17,6 +17,12 @@ CLAIMS = {
          "component-wise ancestor of every directory, and LoadSources on an empty list does not crash. Every path of the real SSA is explored and "
          "every assertion is an unsat query. packages.Load, file-system errors and per-file package selection are NOT decided (I/O and the Go toolchain).",
          "DESIGN.md section 4 (C17)", ""),
+ "C19": ("Decides the whole statement within the bounds: for every list of n<=3 (quick) / n<=4 (thorough) declarations whose IDs are any mix of 0- and 1-byte "
+         "strings or all 2-byte strings (all byte values), 1-byte contents, symbolic priorities, equal IDs carrying equal content, "
+         "WriteDeclarations(decls) equals a sort-free reference (distinct IDs once, content+newline, priority IDs first, each group in increasing ID order) "
+         "for EVERY arrangement sort.Slice's contract allows (not only the one pdqsort happens to produce), and WriteDeclarations(perm(decls)) == WriteDeclarations(decls) "
+         "for every permutation (n<=3). Counterexamples that need the sort's freedom are replayed natively inside >=13 padding declarations.",
+         "DESIGN.md section 3 (C19)", ""),
 }
 
 NA = {
